@@ -1,6 +1,6 @@
 (* Proofs about the model of the path-based constructors (Algo/Construct.v) for C05. *)
 From Coq Require Import Permutation.
-From BT Require Import Base.Prelude Base.Str Base.Rose Algo.Construct Spec.PC05.
+From BT Require Import Base.Prelude Base.Str Base.StrSep Base.Rose Algo.Construct Spec.PC05.
 
 (* ======================================================================================== *)
 (* 1. list / position plumbing                                                               *)
@@ -2720,6 +2720,263 @@ Proof.
   intros H. unfold spec_parse, branch_of. rewrite H, !split_splitc, (splitc_lstrip_nil c s H). split; reflexivity.
 Qed.
 
+
+(* ======================================================================================== *)
+(* 24b. separators of any positive length (Base/StrSep.v)                                     *)
+
+Lemma hd_splitc_rstrip c m : hd [] (splitc c (rstrip m [c])) = hd [] (splitc c m).
+Proof.
+  unfold rstrip. rewrite <- (rev_involutive m) at 2. generalize (rev m) as u. intros u.
+  induction u as [|ch u IH]; [reflexivity|]. rewrite lstrip_cons. destruct (N.eqb c ch) eqn:E; [|reflexivity].
+  apply N.eqb_eq in E. subst ch. cbn [rev]. rewrite splitc_snoc_sep, IH.
+  pose proof (splitc_nonempty c (rev u)). destruct (splitc c (rev u)); [congruence|reflexivity].
+Qed.
+
+Lemma splitc_no_sep c : forall s x, In x (splitc c s) -> ~ In c x.
+Proof.
+  induction s as [|ch t IH]; intros x Hx; cbn [splitc] in Hx.
+  - destruct Hx as [<-|[]]. intros [].
+  - destruct (N.eqb c ch) eqn:E.
+    + destruct Hx as [<-|Hx]; [intros []|now apply IH].
+    + pose proof (splitc_nonempty c t) as Hne. destruct (splitc c t) as [|h r] eqn:Es; [congruence|].
+      destruct Hx as [<-|Hx].
+      * intros [->|Hin]; [now rewrite N.eqb_refl in E|]. apply (IH h); [now left|exact Hin].
+      * apply IH. now right.
+Qed.
+
+
+Fixpoint rep (sp : str) (n : nat) : str := match n with 0 => [] | S k => sp ++ rep sp k end.
+
+Lemma rep_chars sp n ch : In ch (rep sp n) -> In ch sp.
+Proof. induction n as [|n IH]; cbn; [intros []|]. intros H. apply in_app_or in H as [H|H]; auto. Qed.
+
+Lemma rep_snoc sp n : rep sp n ++ sp = rep sp (S n).
+Proof. induction n as [|n IH]; cbn [rep]; [now rewrite app_nil_r|]. now rewrite <- app_assoc, IH. Qed.
+
+Lemma rstrip_all sp p pre : (forall ch, In ch p -> In ch sp) -> rstrip (pre ++ p) sp = rstrip pre sp.
+Proof.
+  intros H. unfold rstrip. rewrite rev_app_distr, lstrip_all; [reflexivity|].
+  intros ch Hch. apply H. now apply in_rev.
+Qed.
+
+Lemma strip_app_seps sp p : (forall ch, In ch p -> In ch sp) ->
+  forall s, rstrip (lstrip (s ++ p) sp) sp = rstrip (lstrip s sp) sp.
+Proof.
+  intros H. induction s as [|x s IH].
+  - cbn [app]. rewrite <- (app_nil_r p), lstrip_all by exact H. reflexivity.
+  - cbn [app lstrip]. destruct (memN x sp); [exact IH|].
+    change (x :: s ++ p) with ((x :: s) ++ p). now apply rstrip_all.
+Qed.
+
+Lemma branch_of_leading_multi sp path : branch_of (sp ++ path) sp = branch_of path sp.
+Proof. unfold branch_of. rewrite lstrip_all; auto. Qed.
+
+Lemma branch_of_trailing_multi sp path : branch_of (path ++ sp) sp = branch_of path sp.
+Proof. unfold branch_of. rewrite strip_app_seps; auto. Qed.
+
+(* a leading / trailing separator of any length changes nothing: no guard on the names needed,
+   lstrip/rstrip remove every character of the separator anyway *)
+Theorem add_path_leading_sep_multi t tsep sp path dup na :
+  sp <> [] -> path <> [] ->
+  add_path_to_tree t tsep (sp ++ path) sp dup na = add_path_to_tree t tsep path sp dup na.
+Proof.
+  intros Hs Hp. unfold add_path_to_tree. rewrite branch_of_leading_multi.
+  destruct sp; [congruence|]. destruct path; [congruence|reflexivity].
+Qed.
+
+Theorem add_path_trailing_sep_multi t tsep sp path dup na :
+  path <> [] ->
+  add_path_to_tree t tsep (path ++ sp) sp dup na = add_path_to_tree t tsep path sp dup na.
+Proof.
+  intros Hp. unfold add_path_to_tree. rewrite branch_of_trailing_multi.
+  destruct path; [congruence|reflexivity].
+Qed.
+
+Lemma sgood_sfree sp L : Forall (sgood sp) L -> Forall (sfree sp) L.
+Proof. intros H. eapply Forall_impl; [|exact H]. intros x [_ Hx]. exact Hx. Qed.
+
+Lemma join_head_multi sp x L ch r : x = ch :: r -> exists r', join sp (x :: L) = ch :: r'.
+Proof. intros ->. destruct L; [rewrite join_single|rewrite join_cons]; cbn; eauto. Qed.
+
+Lemma lstrip_join_multi sp L : L <> [] -> Forall (sgood sp) L -> lstrip (join sp L) sp = join sp L.
+Proof.
+  intros Hne Hall. destruct L as [|x L]; [congruence|]. inversion Hall as [|? ? Hx HL]; subst.
+  destruct L as [|y L].
+  - rewrite join_single. rewrite <- (app_nil_r x). now apply lstrip_stop.
+  - rewrite join_cons. now apply lstrip_stop.
+Qed.
+
+(* a path string is read back as its list of names (names: non-empty, free of separator characters) *)
+Lemma branch_of_join_multi sp L :
+  sp <> [] -> L <> [] -> Forall (sgood sp) L -> branch_of (join sp L) sp = L.
+Proof.
+  intros Hs Hne Hall. unfold branch_of. rewrite lstrip_join_multi by assumption.
+  rewrite <- (app_nil_l (join sp L)), rstrip_join_multi by assumption. cbn [app].
+  destruct sp as [|a sp']; [congruence|]. apply split_join_multi; [exact Hne|now apply sgood_sfree].
+Qed.
+
+Lemma hd_sgood sp L : L <> [] -> Forall (sgood sp) L -> hd [] L <> [] /\ last L [] <> [].
+Proof.
+  intros Hne Hall. split.
+  - destruct L; [congruence|]. inversion Hall as [|? ? [Hx _] _]; subst. exact Hx.
+  - destruct (exists_last Hne) as (l & y & ->). rewrite last_last.
+    apply Forall_app in Hall as [_ Hy]. inversion Hy as [|? ? [Hn _] _]; subst. exact Hn.
+Qed.
+
+Theorem spec_parse_join_multi sp L :
+  sp <> [] -> L <> [] -> Forall (sgood sp) L ->
+  spec_parse (join sp L) sp = L /\ branch_of (join sp L) sp = L.
+Proof.
+  intros Hs Hne Hall. split; [|now apply branch_of_join_multi].
+  destruct (hd_sgood sp L Hne Hall) as [Hh Hl].
+  unfold spec_parse. destruct sp as [|a sp']; [congruence|].
+  rewrite split_join_multi; [|exact Hne|now apply sgood_sfree].
+  rewrite (drop_empty_id L Hh), drop_empty_id; [apply rev_involutive|]. now rewrite hd_rev_last.
+Qed.
+
+(* the separator chosen does not matter, whatever its length *)
+Theorem add_path_sep_independent_multi sp1 sp2 nms t tsep dup na :
+  sp1 <> [] -> sp2 <> [] -> nms <> [] -> Forall (sgood sp1) nms -> Forall (sgood sp2) nms ->
+  add_path_to_tree t tsep (join sp1 nms) sp1 dup na
+  = add_path_to_tree t tsep (join sp2 nms) sp2 dup na.
+Proof.
+  intros H1 H2 Hne Hg1 Hg2. unfold add_path_to_tree. rewrite !branch_of_join_multi by assumption.
+  destruct nms as [|n0 nms]; [congruence|]. inversion Hg1 as [|? ? [Hn0 _] _]; subst.
+  destruct n0 as [|ch r0]; [congruence|].
+  destruct (join_head_multi sp1 (ch :: r0) nms ch r0 eq_refl) as [r1 ->].
+  destruct (join_head_multi sp2 (ch :: r0) nms ch r0 eq_refl) as [r2 ->]. reflexivity.
+Qed.
+
+Lemma join_inj_multi sp (l1 l2 : list str) :
+  sp <> [] -> l1 <> [] -> l2 <> [] -> Forall (sfree sp) l1 -> Forall (sfree sp) l2 ->
+  join sp l1 = join sp l2 -> l1 = l2.
+Proof.
+  intros Hs H1 H2 F1 F2 E. destruct sp as [|a sp']; [congruence|].
+  rewrite <- (split_join_multi a sp' l1 H1 F1), <- (split_join_multi a sp' l2 H2 F2). now rewrite E.
+Qed.
+
+(* "the two readings of the path string s agree": the specification's (split, drop empty ends)
+   and the code's (strip the separator's characters, split).  True of every string for a
+   one-character separator; for longer separators true of rendered name lists (PG_render). *)
+Definition PG (sp s : str) : Prop :=
+  (lstrip s sp = [] /\ spec_parse s sp = [] /\ branch_of s sp = [[]])
+  \/ (lstrip s sp <> [] /\ spec_parse s sp = branch_of s sp
+      /\ hd [] (split (lstrip s sp) sp) = hd [] (branch_of s sp)
+      /\ Forall (sfree sp) (branch_of s sp)).
+
+Lemma PG_single c s : PG [c] s.
+Proof.
+  destruct (lstrip s [c]) as [|ch r] eqn:E.
+  - left. destruct (parse_empty c s E) as [E1 E2]. auto.
+  - right. split; [congruence|]. split; [apply parse_agree; congruence|]. split.
+    + unfold branch_of. rewrite E, !split_splitc. symmetry. apply hd_splitc_rstrip.
+    + apply Forall_forall. intros x Hx. apply sfree_one. unfold branch_of in Hx. rewrite split_splitc in Hx.
+      eapply splitc_no_sep; eauto.
+Qed.
+
+Lemma join_app sp (L1 L2 : list str) :
+  L1 <> [] -> L2 <> [] -> join sp (L1 ++ L2) = join sp L1 ++ sp ++ join sp L2.
+Proof.
+  intros H1 H2. induction L1 as [|x L1 IH]; [congruence|]. destruct L1 as [|y L1].
+  - cbn [app]. rewrite join_cons_ne by exact H2. now rewrite join_single.
+  - change ((x :: y :: L1) ++ L2) with (x :: (y :: L1) ++ L2).
+    rewrite join_cons_ne by discriminate. rewrite IH by discriminate.
+    rewrite join_cons. now rewrite <- !app_assoc.
+Qed.
+
+Lemma join_empties sp n : join sp (repeat [] (S n)) = rep sp n.
+Proof.
+  induction n as [|n IH]; [reflexivity|]. change (repeat [] (S (S n))) with ([] :: repeat (@nil N) (S n)).
+  rewrite join_cons_ne by discriminate. rewrite IH. reflexivity.
+Qed.
+
+Lemma join_pad sp a b L :
+  L <> [] -> join sp (repeat [] a ++ L ++ repeat [] b) = rep sp a ++ join sp L ++ rep sp b.
+Proof.
+  intros Hne.
+  assert (R : join sp (L ++ repeat [] b) = join sp L ++ rep sp b).
+  { destruct b as [|b]; [cbn [repeat rep]; now rewrite !app_nil_r|].
+    rewrite join_app by (try exact Hne; discriminate). rewrite join_empties. now rewrite rep_snoc_l. }
+  destruct a as [|a]; [exact R|].
+  rewrite join_app; [|discriminate|destruct L; [congruence|discriminate]].
+  rewrite join_empties, R. rewrite app_assoc, rep_snoc. reflexivity.
+Qed.
+
+Lemma drop_empty_repeat n M : drop_empty (repeat [] n ++ M) = drop_empty M.
+Proof. induction n as [|n IH]; [reflexivity|exact IH]. Qed.
+
+Lemma rev_repeat {A} (x : A) n : rev (repeat x n) = repeat x n.
+Proof.
+  induction n as [|n IH]; [reflexivity|]. cbn [repeat rev]. rewrite IH. clear.
+  induction n as [|n IH]; [reflexivity|]. cbn. now rewrite IH.
+Qed.
+
+Lemma PG_render sp a b L :
+  sp <> [] -> L <> [] -> Forall (sgood sp) L -> PG sp (rep sp a ++ join sp L ++ rep sp b).
+Proof.
+  intros Hs Hne Hall. right.
+  destruct (hd_sgood sp L Hne Hall) as [Hh Hl].
+  pose proof (sgood_sfree sp L Hall) as Hf.
+  assert (Hls : lstrip (rep sp a ++ join sp L ++ rep sp b) sp = join sp L ++ rep sp b).
+  { rewrite lstrip_all by (intros ch; apply rep_chars).
+    destruct L as [|x L]; [congruence|]. inversion Hall as [|? ? Hx HL]; subst. destruct L as [|y L].
+    - rewrite join_single. now apply lstrip_stop.
+    - rewrite join_cons, <- app_assoc. now apply lstrip_stop. }
+  assert (Hbr : branch_of (rep sp a ++ join sp L ++ rep sp b) sp = L).
+  { unfold branch_of. rewrite Hls, rstrip_all by (intros ch; apply rep_chars).
+    rewrite <- (app_nil_l (join sp L)), rstrip_join_multi by assumption. cbn [app].
+    destruct sp as [|c0 sp']; [congruence|]. now apply split_join_multi. }
+  assert (Hpad : Forall (sfree sp) (repeat [] a ++ L ++ repeat [] b)).
+  { apply Forall_app. split; [|apply Forall_app; split; [exact Hf|]];
+      apply Forall_forall; intros x Hx; apply repeat_spec in Hx; subst; intros ch _ []. }
+  split; [rewrite Hls; destruct L as [|[|ch r] L]; [congruence|congruence|];
+          destruct (join_head_multi sp (ch :: r) L ch r eq_refl) as [r' ->]; discriminate|].
+  rewrite Hbr. split; [|split; [|exact Hf]].
+  - unfold spec_parse. rewrite <- (join_pad sp a b L Hne).
+    destruct sp as [|c0 sp']; [congruence|].
+    rewrite split_join_multi; [|destruct a; [destruct L; [congruence|discriminate]|discriminate]|exact Hpad].
+    rewrite drop_empty_repeat. rewrite (drop_empty_id (L ++ repeat [] b)) by (destruct L; [congruence|exact Hh]).
+    rewrite rev_app_distr, rev_repeat, drop_empty_repeat, drop_empty_id; [apply rev_involutive|].
+    now rewrite hd_rev_last.
+  - rewrite Hls. replace (join sp L ++ rep sp b) with (join sp (repeat [] 0 ++ L ++ repeat [] b))
+      by (rewrite join_pad by exact Hne; reflexivity).
+    cbn [repeat app]. destruct sp as [|c0 sp']; [congruence|].
+    rewrite split_join_multi.
+    + destruct L; [congruence|reflexivity].
+    + destruct L; [congruence|discriminate].
+    + apply Forall_app. split; [exact Hf|]. apply Forall_forall. intros x Hx. apply repeat_spec in Hx. subst. intros ch _ [].
+Qed.
+
+Lemma PG_seps sp a : sp <> [] -> PG sp (rep sp a).
+Proof.
+  intros Hs. left.
+  assert (Hl : lstrip (rep sp a) sp = []).
+  { rewrite <- (app_nil_r (rep sp a)), lstrip_all by (intros ch; apply rep_chars). reflexivity. }
+  split; [exact Hl|]. split.
+  - unfold spec_parse. rewrite <- join_empties. destruct sp as [|c0 sp']; [congruence|].
+    rewrite split_join_multi; [| discriminate |].
+    + rewrite <- (app_nil_r (repeat [] (S a))), drop_empty_repeat. reflexivity.
+    + apply Forall_forall. intros x Hx. apply repeat_spec in Hx. subst. intros ch _ [].
+  - unfold branch_of. rewrite Hl. destruct sp as [|c0 sp']; [congruence|]. reflexivity.
+Qed.
+
+(* the root name inferred by the constructors is the head of the specification's reading *)
+Lemma root_inference sp p0 :
+  sp <> [] -> PG sp p0 ->
+  hd [] (split (lstrip p0 sp) sp) = hd [] (spec_parse p0 sp)
+  /\ hd [] (branch_of p0 sp) = hd [] (spec_parse p0 sp).
+Proof.
+  intros Hs [(E & E1 & E2)|(E & E1 & E2 & _)].
+  - rewrite E, E1, E2. destruct sp; [congruence|]. split; reflexivity.
+  - rewrite E1, E2. split; reflexivity.
+Qed.
+
+Lemma branch_of_word sp r : sp <> [] -> sgood sp r -> branch_of r sp = [r].
+Proof.
+  intros Hs Hr. rewrite <- (join_single sp r) at 1. apply branch_of_join_multi; [exact Hs|discriminate|].
+  constructor; [exact Hr|constructor].
+Qed.
+
 (* ======================================================================================== *)
 (* 25. acceptance of a loop of calls (duplicates allowed)                                     *)
 
@@ -3076,106 +3333,6 @@ Proof.
       cbn. intros ->. rewrite str_eqb_refl in Hwr. discriminate.
 Qed.
 
-Lemma add_rows_nil_acc t tsep sep dup rows acc :
-  fst (add_rows t tsep sep dup rows acc) = fst (add_rows t tsep sep dup rows []) /\
-  (forall e, snd (add_rows t tsep sep dup rows acc) = Raise e <-> snd (add_rows t tsep sep dup rows []) = Raise e).
-Proof.
-  revert t acc. induction rows as [|[path na] rows IH]; intros t acc; cbn [add_rows].
-  - cbn. split; [reflexivity|]. intros e. split; discriminate.
-  - destruct (add_path_to_tree t tsep path sep dup na) as [t1 [p|e]]; [|cbn; split; [reflexivity|tauto]].
-    destruct (IH t1 (p :: acc)) as [H1 H2]. destruct (IH t1 [p]) as [H3 H4].
-    split; [congruence|]. intros e. rewrite H2, H4. tauto.
-Qed.
-
-Theorem model_satisfies_KAddPath i c :
-  i_sep i = [c] -> i_dup i = true -> attrs_wf (i_tree i) ->
-  prop_C05 KAddPath i (run KAddPath i) = true.
-Proof.
-  intros Hsep Hdup Hwf. unfold prop_C05. cbn [is_byname]. unfold prop_paths.
-  destruct (guards KAddPath i) eqn:G; [cbn [negb]|reflexivity].
-  destruct (guards_facts _ _ G) as (Hk & Hnd & Hne). cbn [base is_new] in Hnd, Hne.
-  pose proof (NoDup_paths_sib_ok _ [] Hnd) as Hw.
-  pose proof (add_kind_prows KAddPath i c (fun a => eq_refl) Hsep) as Hpr.
-  unfold run. rewrite Hsep. cbn [is_nil]. change (forallb (row_keys_ok []) (i_rows i)) with (keys_ok KAddPath i).
-  rewrite Hk, Hdup.
-  destruct (add_rows (i_tree i) (i_tsep i) [c] true (i_rows i) []) as [t1 [ps|e]] eqn:H; cbn [out_add o_res o_tree o_rets].
-  - destruct (add_kind_structure KAddPath i c _ _ _ eq_refl Hpr Hw Hwf Hne Hnd H) as (C1 & C2 & C3 & C4 & C5).
-    rewrite C1, C2, C3. unfold rets_ok. cbn [o_rets]. rewrite C5. try rewrite Hdup. cbn [orb andb].
-    rewrite andb_true_r. unfold expected_accept, no_call. destruct (i_rows i) as [|r0 rows] eqn:Er; [reflexivity|].
-    cbn [is_nil negb orb andb is_frame]. rewrite C4, Hdup. cbn. rewrite andb_true_r.
-    unfold root_name. cbn [is_new]. destruct (tname (i_tree i)) eqn:En; [|reflexivity].
-    exfalso. apply (Hne []); [|reflexivity]. rewrite <- En. apply tname_in_names.
-  - assert (Hrej : expected_accept KAddPath i = false).
-    { destruct (expected_accept KAddPath i) eqn:Ea; [|reflexivity]. exfalso.
-      unfold expected_accept, no_call in Ea. destruct (i_rows i) as [|r0 rows] eqn:Er.
-      - cbn in H. discriminate.
-      - cbn [is_nil negb orb is_frame] in Ea. rewrite !andb_true_iff in Ea. destruct Ea as ((((_ & _) & Hok) & _) & _).
-        destruct (add_rows_ok_accepted c (i_tsep i) (r0 :: rows) (i_tree i) [] Hw) as (t' & ps & Hacc).
-        + intros r Hr. rewrite forallb_forall in Hok. rewrite Hpr in Hok.
-          apply (Hok (spec_parse (fst r) [c])). unfold sprows. rewrite map_map. apply in_map_iff. exists r. auto.
-        + rewrite Hacc in H. discriminate. }
-    rewrite Hrej. cbn [negb andb is_new].
-    destruct (refused_at_once KAddPath i) eqn:Er; [|reflexivity].
-    unfold refused_at_once in Er. cbn [is_frame andb orb] in Er. rewrite orb_false_r in Er.
-    destruct (i_rows i) as [|[s0 na0] rows] eqn:Erows.
-    + cbn in H. discriminate.
-    + cbn [is_nil orb] in Er. rewrite Hpr in Er. cbn [sprows map fst] in Er.
-      unfold wrong_root, root_name in Er. cbn [is_new] in Er.
-      destruct (wrong_root_unchanged c (i_tree i) (i_tsep i) s0 true na0 Hne Er) as [e0 He0].
-      cbn [add_rows] in H. rewrite He0 in H. inversion H; subst. now apply same_tree_refl.
-Qed.
-
-(* the part of the refusal argument shared by the entry points that loop over add_path_to_tree *)
-Lemma add_rows_rejected k i c r0 rows t1 e :
-  is_new k = false -> is_frame k = false -> prows k i = sprows c (r0 :: rows) ->
-  sib_ok (i_tree i) -> attrs_wf (i_tree i) -> nonempty_names (i_tree i) ->
-  add_rows (i_tree i) (i_tsep i) [c] true (r0 :: rows) [] = (t1, Raise e) ->
-  forallb (path_ok k i) (map fst (prows k i)) = false
-  /\ (match prows k i with (p, _) :: _ => wrong_root k i p | [] => true end = true ->
-      same_tree t1 (i_tree i) = true).
-Proof.
-  intros Hnew Hfr Hpr Hw Hwf Hne H. split.
-  - destruct (forallb (path_ok k i) (map fst (prows k i))) eqn:Hok; [|reflexivity]. exfalso.
-    destruct (add_rows_ok_accepted c (i_tsep i) (r0 :: rows) (i_tree i) [] Hw) as (t' & ps & Hacc).
-    + intros r Hr. rewrite forallb_forall in Hok. rewrite Hpr in Hok.
-      specialize (Hok (spec_parse (fst r) [c])). unfold path_ok, wrong_root, root_name in Hok. rewrite Hnew in Hok.
-      apply Hok. unfold sprows. rewrite map_map. apply in_map_iff. exists r. auto.
-    + rewrite Hacc in H. discriminate.
-  - rewrite Hpr. destruct r0 as [s0 na0]. cbn [sprows map fst]. unfold wrong_root, root_name. rewrite Hnew.
-    intros Er. destruct (wrong_root_unchanged c (i_tree i) (i_tsep i) s0 true na0 Hne Er) as [e0 He0].
-    cbn [add_rows] in H. rewrite He0 in H. inversion H; subst. now apply same_tree_refl.
-Qed.
-
-Theorem model_satisfies_KAddDict i c :
-  i_sep i = [c] -> i_dup i = true -> attrs_wf (i_tree i) ->
-  prop_C05 KAddDict i (run KAddDict i) = true.
-Proof.
-  intros Hsep Hdup Hwf. unfold prop_C05. cbn [is_byname]. unfold prop_paths.
-  destruct (guards KAddDict i) eqn:G; [cbn [negb]|reflexivity].
-  destruct (guards_facts _ _ G) as (Hk & Hnd & Hne). cbn [base is_new] in Hnd, Hne.
-  pose proof (NoDup_paths_sib_ok _ [] Hnd) as Hw.
-  pose proof (add_kind_prows KAddDict i c (fun a => eq_refl) Hsep) as Hpr.
-  unfold run. rewrite Hsep. cbn [is_nil]. change (forallb (row_keys_ok []) (i_rows i)) with (keys_ok KAddDict i).
-  rewrite Hk, Hdup. unfold add_dict_to_tree_by_path.
-  destruct (i_rows i) as [|r0 rows] eqn:Er.
-  - cbn [out_add o_res o_tree]. unfold expected_accept, no_call, refused_at_once. rewrite Er. cbn.
-    now apply same_tree_refl.
-  - rewrite <- Er in *.
-    destruct (add_rows (i_tree i) (i_tsep i) [c] true (i_rows i) []) as [t1 [ps|e]] eqn:H; cbn [out_add o_res o_tree o_rets].
-    + destruct (add_kind_structure KAddDict i c _ _ _ eq_refl Hpr Hw Hwf Hne Hnd H) as (C1 & C2 & C3 & C4 & C5).
-      rewrite C1, C2, C3. unfold rets_ok. cbn [o_rets list_eqb Nat.eqb andb]. try rewrite Hdup. cbn [orb andb].
-      rewrite andb_true_r. unfold expected_accept, no_call. rewrite Er at 1. cbn [is_nil negb orb andb is_frame].
-      rewrite C4. try rewrite Hdup. cbn [orb andb]. rewrite !andb_true_r.
-      unfold root_name. cbn [is_new]. destruct (tname (i_tree i)) eqn:En; [|reflexivity].
-      exfalso. apply (Hne []); [|reflexivity]. rewrite <- En. apply tname_in_names.
-    + rewrite Er in H, Hpr.
-      destruct (add_rows_rejected KAddDict i c r0 rows t1 e eq_refl eq_refl Hpr Hw Hwf Hne H) as [R1 R2].
-      unfold expected_accept, no_call, refused_at_once. rewrite Er. cbn [is_nil negb orb andb is_frame].
-      rewrite R1. rewrite !andb_false_r. cbn [negb andb is_new].
-      destruct (match prows KAddDict i with (p, _) :: _ => wrong_root KAddDict i p | [] => true end) eqn:Ew; [|reflexivity].
-      now apply R2.
-Qed.
-
 (* ======================================================================================== *)
 (* 28. list_to_tree: the de-duplication of the path strings is unobservable                    *)
 
@@ -3249,25 +3406,6 @@ Proof.
   - unfold collapse. destruct (add_rows _ _ _ _ _ _) as [t [x|e]]; reflexivity.
   - constructor; constructor.
   - intros s [].
-Qed.
-
-Lemma hd_splitc_rstrip c m : hd [] (splitc c (rstrip m [c])) = hd [] (splitc c m).
-Proof.
-  unfold rstrip. rewrite <- (rev_involutive m) at 2. generalize (rev m) as u. intros u.
-  induction u as [|ch u IH]; [reflexivity|]. rewrite lstrip_cons. destruct (N.eqb c ch) eqn:E; [|reflexivity].
-  apply N.eqb_eq in E. subst ch. cbn [rev]. rewrite splitc_snoc_sep, IH.
-  pose proof (splitc_nonempty c (rev u)). destruct (splitc c (rev u)); [congruence|reflexivity].
-Qed.
-
-(* the root name inferred by the constructors is the head of the specification's reading *)
-Lemma root_inference c p0 :
-  hd [] (split (lstrip p0 [c]) [c]) = hd [] (spec_parse p0 [c])
-  /\ hd [] (branch_of p0 [c]) = hd [] (spec_parse p0 [c]).
-Proof.
-  destruct (lstrip p0 [c]) as [|ch r] eqn:E.
-  - destruct (parse_empty c p0 E) as [E1 E2]. rewrite E1, E2. split; reflexivity.
-  - rewrite (parse_agree c p0) by congruence. split; [|reflexivity].
-    unfold branch_of. rewrite E, !split_splitc. symmetry. apply hd_splitc_rstrip.
 Qed.
 
 (* ======================================================================================== *)
@@ -3360,64 +3498,6 @@ Proof.
   - exact F5.
 Qed.
 
-Theorem model_satisfies_KList i c :
-  i_sep i = [c] -> i_dup i = true -> prop_C05 KList i (run KList i) = true.
-Proof.
-  intros Hsep Hdup. unfold prop_C05. cbn [is_byname]. unfold prop_paths.
-  destruct (guards KList i) eqn:G; [cbn [negb]|reflexivity].
-  unfold run. rewrite Hsep. cbn [is_nil]. rewrite Hdup.
-  pose proof (root_name_new KList i eq_refl) as Hrn.
-  destruct (i_rows i) as [|[p0 a0] rows] eqn:Er.
-  - cbn [map list_to_tree out_new o_res o_tree]. unfold expected_accept, no_call. rewrite Er. reflexivity.
-  - cbn [map fst]. rewrite list_to_tree_full. rewrite Hsep in Hrn. cbn [fst] in Hrn.
-    destruct (root_inference c p0) as [Hri _]. rewrite Hri, <- Hrn.
-    set (r := root_name KList i) in *.
-    destruct (is_nil r) eqn:En.
-    + cbn [out_new o_res o_tree]. unfold expected_accept, no_call. rewrite Er. fold r. rewrite En.
-      cbn. reflexivity.
-    + set (mrows := map (fun p => (p, @nil (str * val))) (p0 :: map fst rows)).
-      assert (Hpr : prows KList i = sprows c mrows).
-      { unfold prows, sprows, mrows. rewrite Er, Hsep. cbn [map fst snd spec_filter]. f_equal.
-        rewrite !map_map. reflexivity. }
-      assert (Hr : r <> []) by (destruct r; [discriminate|discriminate]).
-      destruct (add_rows (T None r [] []) [c] [c] true mrows []) as [t1 [ps|e]] eqn:H; cbn [collapse out_new o_res o_tree o_rets].
-      * destruct (new_kind_structure KList i c r [] [c] mrows t1 ps eq_refl eq_refl Hpr Hr) as (C1 & C2 & C3 & C4);
-          [constructor|intros key Hk; cbn in Hk; congruence|exact H|].
-        rewrite C1, C2, C3. unfold rets_ok. cbn [o_rets list_eqb Nat.eqb andb]. cbn [orb andb].
-        rewrite andb_true_r. unfold expected_accept, no_call. rewrite Er at 1. cbn [is_nil negb orb andb is_frame].
-        rewrite C4, Hdup. fold r. rewrite En. reflexivity.
-      * unfold expected_accept, no_call. rewrite Er at 1. cbn [is_nil negb orb andb is_frame is_new].
-        destruct (forallb (path_ok KList i) (map fst (prows KList i))) eqn:Hok; [|now rewrite !andb_false_r].
-        exfalso.
-        destruct (add_rows_ok_accepted c [c] mrows (T None r [] []) []) as (t' & ps & Hacc).
-        -- constructor; constructor.
-        -- intros r1 Hr1. cbn [tname]. rewrite forallb_forall in Hok. rewrite Hpr in Hok.
-           specialize (Hok (spec_parse (fst r1) [c])). unfold path_ok, wrong_root in Hok. fold r in Hok.
-           apply Hok. unfold sprows. rewrite map_map. apply in_map_iff. exists r1. auto.
-        -- rewrite Hacc in H. discriminate.
-Qed.
-
-Lemma splitc_no_sep c : forall s x, In x (splitc c s) -> ~ In c x.
-Proof.
-  induction s as [|ch t IH]; intros x Hx; cbn [splitc] in Hx.
-  - destruct Hx as [<-|[]]. intros [].
-  - destruct (N.eqb c ch) eqn:E.
-    + destruct Hx as [<-|Hx]; [intros []|now apply IH].
-    + pose proof (splitc_nonempty c t) as Hne. destruct (splitc c t) as [|h r] eqn:Es; [congruence|].
-      destruct Hx as [<-|Hx].
-      * intros [->|Hin]; [now rewrite N.eqb_refl in E|]. apply (IH h); [now left|exact Hin].
-      * apply IH. now right.
-Qed.
-
-Lemma branch_of_word c r : r <> [] -> ~ In c r -> branch_of r [c] = [r].
-Proof.
-  intros Hr Hc. rewrite <- (join_single [c] r) at 1. apply branch_of_join.
-  - discriminate.
-  - intros x [<-|[]]. exact Hc.
-  - exact Hr.
-  - exact Hr.
-Qed.
-
 Lemma first_nonempty_In l : first_nonempty l <> [] -> In (first_nonempty l) l.
 Proof.
   unfold first_nonempty. intros H. destruct (filter (fun a => negb (is_nil a)) l) as [|a r] eqn:E; [congruence|].
@@ -3449,72 +3529,6 @@ Lemma dict_to_tree_form d sep k0 a0 rows :
     else collapse (add_rows (T None r (set_attrs [] ra) []) sep sep true
                             (map (fun r0 : str * attrs => (fst r0, filter_attributes (snd r0) [k_name] false)) d) []).
 Proof. intros ->. reflexivity. Qed.
-
-Theorem model_satisfies_KDict i c :
-  i_sep i = [c] -> i_dup i = true -> prop_C05 KDict i (run KDict i) = true.
-Proof.
-  intros Hsep Hdup. unfold prop_C05. cbn [is_byname]. unfold prop_paths.
-  destruct (guards KDict i) eqn:G; [cbn [negb]|reflexivity].
-  destruct (guards_facts _ _ G) as (Hk & _ & _).
-  unfold run. rewrite Hsep. cbn [is_nil].
-  change (forallb (row_keys_ok [k_name]) (i_rows i)) with (keys_ok KDict i). rewrite Hk, Hdup.
-  pose proof (root_name_new KDict i eq_refl) as Hrn.
-  destruct (i_rows i) as [|[k0 a0] rows] eqn:Er.
-  - cbn [dict_to_tree out_new o_res o_tree]. unfold expected_accept, no_call. rewrite Er. reflexivity.
-  - rewrite <- Er. rewrite (dict_to_tree_form _ _ _ _ _ Er). cbv zeta.
-    rewrite Hsep in Hrn. cbn [fst] in Hrn.
-    destruct (root_inference c k0) as [_ Hri]. rewrite Hri, <- Hrn.
-    set (r := root_name KDict i) in *.
-    set (get := fun k => match dict_get (i_rows i) k with Some a => a | None => [] end).
-    set (mrows := map (fun r0 : str * attrs => (fst r0, filter_attributes (snd r0) [k_name] false)) (i_rows i)).
-    match goal with |- context [first_nonempty ?l] => set (A := first_nonempty l) end.
-    set (ra := filter_attributes A [k_name] false).
-    destruct (is_nil r) eqn:En.
-    + cbn [out_new o_res o_tree]. unfold expected_accept, no_call. rewrite Er. fold r. rewrite En. cbn. reflexivity.
-    + assert (Hr : r <> []) by (destruct r; [discriminate|discriminate]).
-      assert (Hpr : prows KDict i = sprows c mrows).
-      { unfold prows, sprows, mrows. rewrite Hsep, map_map. apply map_ext. intros r0. cbn [fst snd].
-        now rewrite dict_filter_spec with (pcol := i_pcol i). }
-      assert (Hrc : ~ In c r).
-      { rewrite Hrn. destruct (lstrip k0 [c]) as [|ch l] eqn:El.
-        - destruct (parse_empty c k0 El) as [E1 _]. rewrite E1. intros [].
-        - rewrite (parse_agree c k0) by congruence. unfold branch_of. rewrite split_splitc.
-          pose proof (splitc_nonempty c (rstrip (lstrip k0 [c]) [c])) as Hne.
-          destruct (splitc c (rstrip (lstrip k0 [c]) [c])) as [|h t] eqn:Es; [congruence|].
-          cbn [hd]. apply (splitc_no_sep c (rstrip (lstrip k0 [c]) [c])). rewrite Es. now left. }
-      assert (Hbound : forall key, attr_get (set_attrs [] ra) key <> None -> bound [c] mrows [r] key).
-      { intros key Hkey. rewrite attr_get_set_attrs_last in Hkey.
-        destruct (attr_get (rev ra) key) eqn:Eg; [|cbn in Hkey; congruence].
-        assert (HA : A <> []) by (intros E; unfold ra in Eg; rewrite E in Eg; discriminate).
-        pose proof (first_nonempty_In _ HA) as Hin. fold A in Hin. cbn [In] in Hin.
-        assert (Hex : exists kk, branch_of kk [c] = [r] /\ get kk = A).
-        { pose proof (branch_of_word c r Hr Hrc) as Hb.
-          destruct Hin as [E|[E|[E|[E|[]]]]].
-          - exists r. auto.
-          - exists ([c] ++ r). split; [|exact E]. cbn [app]. now rewrite branch_of_leading.
-          - exists (r ++ [c]). split; [|exact E]. now rewrite branch_of_trailing.
-          - exists ([c] ++ r ++ [c]). split; [|exact E]. cbn [app]. now rewrite branch_of_leading, branch_of_trailing. }
-        destruct Hex as (kk & Hb & Hg). unfold get in Hg.
-        destruct (dict_get (i_rows i) kk) as [a|] eqn:Ed; [|congruence]. subst a.
-        exists (kk, ra). split; [|split; [exact Hb|cbn [snd]; congruence]].
-        unfold mrows. apply in_map_iff. exists (kk, A). split; [reflexivity|now apply dict_get_In]. }
-      destruct (add_rows (T None r (set_attrs [] ra) []) [c] [c] true mrows []) as [t1 [ps|e]] eqn:H;
-        cbn [collapse out_new o_res o_tree o_rets].
-      * destruct (new_kind_structure KDict i c r (set_attrs [] ra) [c] mrows t1 ps eq_refl eq_refl Hpr Hr) as (C1 & C2 & C3 & C4);
-          [apply set_attrs_keys; constructor|exact Hbound|exact H|].
-        rewrite C1, C2, C3. unfold rets_ok. cbn [o_rets list_eqb Nat.eqb andb]. cbn [orb andb].
-        rewrite andb_true_r. unfold expected_accept, no_call. rewrite Er at 1. cbn [is_nil negb orb andb is_frame].
-        rewrite C4, Hdup. fold r. rewrite En. reflexivity.
-      * unfold expected_accept, no_call. rewrite Er at 1. cbn [is_nil negb orb andb is_frame is_new].
-        destruct (forallb (path_ok KDict i) (map fst (prows KDict i))) eqn:Hok; [|now rewrite !andb_false_r].
-        exfalso.
-        destruct (add_rows_ok_accepted c [c] mrows (T None r (set_attrs [] ra) []) []) as (t' & ps & Hacc).
-        -- constructor; constructor.
-        -- intros r1 Hr1. cbn [tname]. rewrite forallb_forall in Hok. rewrite Hpr in Hok.
-           specialize (Hok (spec_parse (fst r1) [c])). unfold path_ok, wrong_root in Hok. fold r in Hok.
-           apply Hok. unfold sprows. rewrite map_map. apply in_map_iff. exists r1. auto.
-        -- rewrite Hacc in H. discriminate.
-Qed.
 
 (* ======================================================================================== *)
 (* 30. duplicate names disallowed: accepted exactly when the permissive result has distinct names *)
